@@ -10,7 +10,8 @@ from .c09 import pose_equal
 
 LEVEL = "other"
 
-SHAPES = [("PoseR2",), ("PoseSE2",), ("PoseSE2", "PoseR2"), ("PoseSE3", "PoseR3"), ("PoseR3", "PoseSE2", "PoseSE3")]
+SHAPES = [("PoseR2",), ("PoseSE2",), ("PoseSE2", "PoseR2"), ("PoseSE3", "PoseR3"), ("PoseR3", "PoseSE2", "PoseSE3"),
+          ("PoseR2", "PoseSE2", "PoseSE2"), ("PoseSE2", "PoseR2", "PoseR3")]      # n-ary edges whose leading vertices differ in dimension
 
 
 class ErrorFunction:
